@@ -19,8 +19,7 @@ Definition roundtrip_hyp (F : format) (o : opts) (now : bytes) (p : plan) : bool
     forallb (fun c => scan_closed opts_generic delimiter (c_cmd c) && comment_ok2 (c_comment c)) (p_changes p)
   | FLiquibase =>
     comment_ok now && negb (match p_changes p with [] => true | _ => false end)
-    && forallb (fun c => scan_closed o delimiter (c_cmd c) && comment_ok (c_comment c)
-                         && forallb comment_ok (c_reverse c)) (p_changes p)
+    && forallb (fun c => scan_closed o delimiter (c_cmd c) && comment_ok (c_comment c)) (p_changes p)
   | FDBMate =>
     forallb (fun c => scan_closed opts_generic delimiter (c_cmd c) && comment_ok2 (c_comment c)) (p_changes p)
     && dbmate_ok (tool_up p)
@@ -79,8 +78,7 @@ Proof.
     rewrite roundtrip_eq, up_liquibase, read_liquibase, planned_eq, <- texts_of_eq.
     apply liquibase_roundtrip; [exact Hgo|exact H1| |].
     + destruct (p_changes p); [discriminate|discriminate].
-    + eapply forallb_Forall; [|exact H3]. intros c Hc. apply andb_true_iff in Hc as [Hc C3]. apply andb_true_iff in Hc as [C1 C2].
-      repeat split; try assumption. eapply forallb_Forall; [|exact C3]. auto.
+    + eapply forallb_Forall; [|exact H3]. intros c Hc. apply andb_true_iff in Hc as [C1 C2]. split; assumption.
   - (* dbmate *)
     apply andb_true_iff in H as [H1 H2]. rewrite roundtrip_eq, up_dbmate, planned_eq.
     apply dbmate_roundtrip; [|exact H2].
